@@ -242,7 +242,31 @@ def grouped_twice(api, cls, seq, bindings, preset, src_ns, expect_st, as_set) ->
     fails += _grouped(api, cls, [[], list(seq)], bindings, preset, src_ns, expect_st, as_set,
                       "an empty first sink with bindings, then a sink with statements")
     fails += grouped_distinct(api, cls, seq, preset)
+    if api == "generic":
+        fails += sink_reuse(cls, seq, bindings, preset)
     return fails
+
+
+def sink_reuse(cls, seq, bindings, preset) -> list:
+    """One GenericStatementSink reads three files in a row with its parse() method: after each
+    it holds that file's bindings, not those of the files before."""
+    from pyjelly.integrations.generic import generic_sink as gs  # noqa: PLC0415
+
+    other = [("zz", "http://other.example/"), (bindings[0][0], "http://rebound.example/#")]
+    files = [(list(bindings), True), (other, True), (list(bindings), False)]
+    sink = gs.GenericStatementSink()
+    for k, (binds, ns) in enumerate(files):
+        opts = DR.make_options(cls, preset, 250, True, ns=ns, generalized=False, rdf_star=False)
+        data = DR.g_write(seq, cls, opts, "stream_frames_sink", bindings=binds)
+        try:
+            sink.parse(io.BytesIO(data))
+        except Exception as e:  # noqa: BLE001
+            return [("sink-reuse-raised", f"{type(e).__name__}: {e}")]
+        got = [(p, T.from_generic(i)[1]) for p, i in sink.namespaces]
+        want = list(binds) if ns else []
+        if got != want:
+            return [("sink-reuse", f"a sink re-used for file {k + 1} (bindings {want}) holds {got}")]
+    return []
 
 
 def grouped_distinct(api, cls, seq, preset) -> list:
